@@ -6,7 +6,8 @@
 //!   BOFF <n> | BRECV        re-make the body at buf_offset n / as the receive path delivers it (see eval)
 //!   BBEYOND <k> <r|x>       re-make the body with an offset at / beyond the end of its buffer (see eval)
 //!   BOLD <value>            push_old_param    BOLDS <k> <v1..vk>  push_old_params
-//!   PNEW                    parser over a snapshot of the body
+//!   BVALID                  body.validate(), "valid=<bool>"
+//!   PNEW                    parser over a snapshot of the body (same bytes in front of it as the body has: same buf_offset)
 //!   PNEWX <hex>             parser over from_parts(<these bytes>, signature / descriptors / byte order of the body):
 //!                           the way to a DECODE error behind a valid signature
 //!   PGET|PGETN <catalogue-type> ...           typed gets       PGETP   get_param
@@ -294,8 +295,12 @@ fn snapshot_parser(bytes: Option<Vec<u8>>) {
     let copy = BODY.with(|b| {
         let b = b.borrow();
         let fds = b.body.get_fds().to_vec();
-        let buf = bytes.unwrap_or_else(|| b.get_buf().to_vec());
-        MarshalledMessageBody::from_parts(buf, 0, fds, b.get_sig().to_owned(), b.body.byteorder())
+        let body = bytes.unwrap_or_else(|| b.get_buf().to_vec());
+        // the same bytes in front as the body itself has: the parser reads at the body's buf_offset
+        let mut buf = PREFIX.with(|p| p.borrow().clone());
+        let n = buf.len();
+        buf.extend_from_slice(&body);
+        MarshalledMessageBody::from_parts(buf, n, fds, b.get_sig().to_owned(), b.body.byteorder())
     });
     let raw = Box::into_raw(Box::new(copy));
     SNAPSHOT.with(|s| s.set(raw));
@@ -303,7 +308,17 @@ fn snapshot_parser(bytes: Option<Vec<u8>>) {
     PARSER.with(|p| *p.borrow_mut() = Some(snapshot.parser()));
 }
 
+thread_local! {
+    /// the bytes in front of the current body in its buffer (what BOFF / BRECV put there; empty when buf_offset is 0): a parser
+    /// snapshot is made with the same bytes in front, so that the P* operations READ at the same buf_offset
+    static PREFIX: RefCell<Vec<u8>> = RefCell::new(Vec::new());
+}
+fn set_prefix(p: Vec<u8>) {
+    // from_parts normalises an offset that is not a multiple of 8 to 0
+    PREFIX.with(|x| *x.borrow_mut() = if p.len() % 8 == 0 { p } else { Vec::new() });
+}
 fn rehome(m: &mut MarshalledMessage, n: usize) {
+    set_prefix(vec![0xAAu8; n]);
     let mut buf = vec![0xAAu8; n];
     buf.extend_from_slice(m.get_buf());
     let fds = m.body.get_fds().to_vec();
@@ -323,10 +338,13 @@ fn receive(m: &mut MarshalledMessage) -> bool {
         let header = unmarshal_header(&mut cursor).ok()?;
         let dynheader = unmarshal_dynamic_header(&header, &mut cursor).ok()?;
         let consumed = cursor.consumed();
-        unmarshal_next_message(&header, dynheader, wire, consumed, outer.body.get_fds().to_vec()).ok()
+        let head = wire[..wire.len() - outer.get_buf().len()].to_vec();
+        unmarshal_next_message(&header, dynheader, wire, consumed, outer.body.get_fds().to_vec()).ok().map(|rx| (rx, head))
     })();
     match got {
-        Some(rx) if rx.get_sig() == outer.get_sig() && rx.get_buf() == outer.get_buf() => {
+        Some((rx, head)) if rx.get_sig() == outer.get_sig() && rx.get_buf() == outer.get_buf() => {
+            // an empty body comes back with no buffer at all (offset 0)
+            set_prefix(if rx.get_buf().is_empty() { Vec::new() } else { head });
             m.body = rx.body;
             true
         }
@@ -350,10 +368,12 @@ fn eval(line: &str) -> String {
                 *b.borrow_mut() = m;
             });
             drop_parser();
+            set_prefix(Vec::new());
             format!("ok {}", body_state())
         }
         "BRESET" => {
             BODY.with(|b| b.borrow_mut().body.reset());
+            set_prefix(Vec::new());
             format!("ok {}", body_state())
         }
         // BOFF <n>: the same body (signature, bytes, descriptors, byte order) re-made by from_parts with n foreign bytes in
@@ -384,6 +404,7 @@ fn eval(line: &str) -> String {
                 let body = MarshalledMessageBody::from_parts(buf, n, fds, m.get_sig().to_owned(), m.body.byteorder());
                 m.body = body;
             });
+            set_prefix(Vec::new());
             format!("ok {} via=beyond", body_state())
         }
         "BRECV" => {
@@ -425,13 +446,15 @@ fn eval(line: &str) -> String {
         // the type names this binary can dispatch (the check uses only these, so a catalogue that is being regenerated
         // next to it costs coverage, never a verdict)
         "TYPES" => format!("catalogue={} mix={}", rbverif::catalogue::CATALOGUE.join(","), MIX.with(|m| m.iter().map(|t| t.name).collect::<Vec<_>>().join(","))),
+        // BVALID: body.validate() of the body where it lies (at its buf_offset)
+        "BVALID" => BODY.with(|b| format!("valid={}", b.borrow().body.validate().is_ok())),
         "PNEW" => {
             snapshot_parser(None);
-            format!("ok {}", parser_state())
+            format!("ok {} at={}", parser_state(), PREFIX.with(|p| p.borrow().len()))
         }
         "PNEWX" => {
             snapshot_parser(Some(rbverif::unhex(a.next())));
-            format!("ok {}", parser_state())
+            format!("ok {} at={}", parser_state(), PREFIX.with(|p| p.borrow().len()))
         }
         "PCUR" => PARSER.with(|p| match p.borrow().as_ref() {
             Some(p) => cursor_of(p),
